@@ -220,6 +220,10 @@ NEEDS = {
     "C14-r6-2": "a first query accepted by 3 repliers cancelled after one poll, a second accepted by 2, the late reply of the first arriving meanwhile (TaskSet resized to the number of connections)",
     "C15-r6-1": "a reader whose two loads straddle the writer's secs/nanos stores and which re-checks before the writer's final store (final comparison masks the low bit)",
     "C15-r6-2": "weak memory model only (loom): reader-side fence Release instead of Acquire",
+    "C12-r6-1": "a mailbox whose number of accepted messages is not a multiple of its capacity, then Receiver::close() or the drop of the last Sender (is_closed tests right_mask: close becomes a no-op)",
+    "C12-r6-2": "weak memory model only (loom): the slot release store in MessageBorrow::drop Relaxed instead of Release, with slot reuse",
+    "C20-r6-1": "two keyed removals in a particular arrangement, e.g. insert 5, insert 9, insert 3, extract(9), extract(3) (sift_up compares key components instead of the UniqueKey)",
+    "C20-r6-2": "exactly a multiple of 2^32 insertions between issuing a key and the reuse of its slot (epochs compared after `as u32`)",
     "C19-2": "output with >= 2 connections, a full target mailbox, simulation dropped while the broadcast is pending (ManuallyDrop not released)",
 }
 
